@@ -291,7 +291,12 @@ def pool_jobs(tier_quick=True, want=("seq", "conc"), nseq=None, nconc=None):
                                           shard_script=[rng.randrange(8) for _ in range(40)], umask=umask)))]
             if cache["kind"] == "stack":
                 cfg["checker"] = cache.get("checker", "none")
-            jobs.append(job("POOL-seq-%d" % r, stages, cfg, None, fam="pool:seq:%s:cap%s%s" % (kind, cap, ":eq" if cfg.get("checker") == "eq" else "")))
+            pj = job("POOL-seq-%d" % r, stages, cfg, None, fam="pool:seq:%s:cap%s%s" % (kind, cap, ":eq" if cfg.get("checker") == "eq" else ""))
+            # environment: the kernel's access-time policy and the order in which directories are listed vary from run to run
+            em = rng.choice([None, None, {"noatime": True}, {"strictatime": True}, {"listorder": ["<reverse>"]}, {"noatime": True, "listorder": ["<reverse>"]}])
+            if em:
+                pj["emul"] = em
+            jobs.append(pj)
     if "conc" in want:
         for r in range(nconc):
             fr = rng.choice(fronts(rng.choice([1, 3, 100000]), ("plain", "sharded", "stack")))
@@ -855,6 +860,14 @@ def check_C18(work):
     # behaviours of Kismet.tla with one failing call (position uniform over the behaviour), replayed into the real library
     st = add_replay(work, out, st, ["DirValid", "NoLeak", "HandleContentOK", "Immutable", "DebrisConfined"], Q(150, 1500),
                     names=["RPfault", "RPfaultsh", "RPfaulte", "RPfault2", "RPfaults", "RPfaultw"])
+    # persistent failures (every attempt of one class of calls fails): reported or harmless, nothing leaked, directories valid,
+    # operations that do not need the failing call succeed
+    st2 = trace_check(work, out, persistent_jobs("C18"), ["DirValid", "FaultOK", "FollowUpOK", "NoLeak", "HandleContentOK", "Immutable"], tag="c18p")
+    for k_ in ("runs", "events", "states", "violations", "fsmodel_mismatches"):
+        st[k_] = st.get(k_, 0) + st2.get(k_, 0)
+    for k_, v_ in (st2.get("mstats") or {}).items():
+        st.setdefault("mstats", {})
+        st["mstats"][k_] = st["mstats"].get(k_, 0) + v_
     design = design_runs(work, out, Q(["MCfault1", "MCfault2"], ["MCfault1", "MCfault2", "MCfault3"]))
     ms = st.get("mstats", {})
     cov = dict(evaluations=st["runs"], distinct_nontrivial=ms.get("injected", 0),
@@ -1247,15 +1260,24 @@ def check_C10(work):
         for name in Q(("max", "mult", "mult+1", "ones"), ("max", "mult", "mult+1", "mult-1", "ones", "zero", "rand")):
             sc = scripts[name]
             nw = 3 * P + 5 if k < (1 << 20) else 8
-            prog = []
-            for i in range(nw):
-                key = "k%d" % (i if i % 4 else i // 4)          # fresh and repeated keys
-                prog.append(op("set" if i % 2 == 0 else "put", key, "v%d" % i))
             capv = k if k < (1 << 31) else str(k)
-            j = seq_job("C10-%s-%s" % (k, name), "cap=%s:%s" % (k, name), plain("W", capv), prog, draw=sc["draw_default"], draws=sc["draws"],
-                        cfg_extra={"cap": k if k < (1 << 20) else 1000000})
-            j["snap"] = "ret"
-            jobs.append(j)
+            # every write is an event of the trigger, whatever it finds: fresh keys, overwritten keys, puts onto keys that are present
+            for pat in ("mixed", "pairs", "reput"):
+                if pat != "mixed" and not (k in (0, 1, 2, 3, 6, 9, 12, 30, 31) or TIER == "thorough"):
+                    continue
+                prog = []
+                for i in range(nw):
+                    if pat == "mixed":
+                        key, api = "k%d" % (i if i % 4 else i // 4), ("set" if i % 2 == 0 else "put")      # fresh and repeated keys
+                    elif pat == "pairs":
+                        key, api = "k%d" % (i // 2), ("set" if i % 2 == 0 else "put")                      # every put finds its key present
+                    else:
+                        key, api = "k0", ("set" if i == 0 else "put")                                       # one key, put again and again
+                    prog.append(op(api, key, "v%d" % i))
+                j = seq_job("C10-%s-%s-%s" % (k, name, pat), "cap=%s:%s%s" % (k, name, "" if pat == "mixed" else ":" + pat), plain("W", capv), prog,
+                            draw=sc["draw_default"], draws=sc["draws"], cfg_extra={"cap": k if k < (1 << 20) else 1000000})
+                j["snap"] = "ret"
+                jobs.append(j)
     tfiles = run_tracer(work, jobs, tag="c10")
     res2 = validate_traces(work, "TraceTrigger", tfiles, {"monitors": []}, tag="c10")
     writes = maint = 0
@@ -1700,6 +1722,26 @@ def check_C20(work):
     return finish("C20", out, t0, "model_checking", cov, BASE_ASSUME + ["counts calls, not bytes or time"])
 
 
+def persistent_jobs(prefix):
+    """One class of calls failing on EVERY attempt (descriptor table full, I/O error, ...) during a mixed sequence of operations."""
+    pjobs = []
+    hk = dict(hash="1", sec="2")
+    for fname, cache in (("plain", plain("W", 4)), ("sharded", sharded("W", 2, 4)), ("stack", stack(plain("W", 4), [plain("R1")], "none"))):
+        world = [op("mkfile", path="@TOP@/R1/kr", key="kr", val="ro", chunks=1, w=0, mode=0o444, mt_ago=300.0, at_ago=420.0)] if fname == "stack" else []
+        pre = [op("set", "k1", "old1", **hk), op("set", "k2", "old2", **hk)]
+        prog = [op("get", "k1", **hk), op("touch", "k1", **hk), op("get", "absent", **hk), op("put", "k1", **hk), op("set", "k3", **hk), op("put", "k4", **hk)]
+        if fname == "stack":
+            prog += [op("ensure", "k1", **hk), op("ensure", "kr", **hk), op("ensure", "k9", **hk), op("put_tf", "k5", **hk)]
+        for call, errnos in (("open", ["EMFILE", "ENFILE", "EIO"]), ("stat", ["EIO"]), ("link", ["EIO", "EMLINK"]), ("rename", ["EIO"]),
+                             ("unlink", ["EIO"]), ("utimens", ["EIO"]), ("getdents", ["EIO"]), ("mkdir", ["EIO"]), ("chmod", ["EIO"])):
+            for er in errnos:
+                j = seq_job(prefix + "-persist-%s-%s-%s" % (fname, call, er), "%s:persistent:%s:%s" % (fname, call, er), cache, prog, world=world, pre=pre,
+                            draw=ALWAYS, shard_script=[1, 0] * 10, fault_all={"call": call, "errno": er})
+                j["op_call_limit"] = 600
+                pjobs.append(j)
+    return pjobs
+
+
 def check_C06(work):
     t0 = time.time()
     out = Outcome("C06")
@@ -1723,21 +1765,7 @@ def check_C06(work):
     # a participant never waits for a resource that only others can release either: with one class of calls failing PERSISTENTLY
     # (descriptor table full, I/O error on every attempt, ...) every operation still comes back (with an error, or a miss) within a
     # bounded number of calls -- no retry loop
-    pjobs = []
-    hk = dict(hash="1", sec="2")
-    for fname, cache in (("plain", plain("W", 4)), ("sharded", sharded("W", 2, 4)), ("stack", stack(plain("W", 4), [plain("R1")], "none"))):
-        world = [op("mkfile", path="@TOP@/R1/kr", key="kr", val="ro", chunks=1, w=0, mode=0o444, mt_ago=300.0, at_ago=420.0)] if fname == "stack" else []
-        pre = [op("set", "k1", "old1", **hk), op("set", "k2", "old2", **hk)]
-        prog = [op("get", "k1", **hk), op("touch", "k1", **hk), op("get", "absent", **hk), op("put", "k1", **hk), op("set", "k3", **hk), op("put", "k4", **hk)]
-        if fname == "stack":
-            prog += [op("ensure", "k1", **hk), op("ensure", "kr", **hk), op("ensure", "k9", **hk), op("put_tf", "k5", **hk)]
-        for call, errnos in (("open", ["EMFILE", "ENFILE", "EIO"]), ("stat", ["EIO"]), ("link", ["EIO", "EMLINK"]), ("rename", ["EIO"]),
-                             ("unlink", ["EIO"]), ("utimens", ["EIO"]), ("getdents", ["EIO"]), ("mkdir", ["EIO"]), ("chmod", ["EIO"])):
-            for er in errnos:
-                j = seq_job("C06-persist-%s-%s-%s" % (fname, call, er), "%s:persistent:%s:%s" % (fname, call, er), cache, prog, world=world, pre=pre,
-                            draw=ALWAYS, shard_script=[1, 0] * 10, fault_all={"call": call, "errno": er})
-                j["op_call_limit"] = 600
-                pjobs.append(j)
+    pjobs = persistent_jobs("C06")
     st2 = trace_check(work, out, pjobs, ["SoloCompletes", "NoLocks", "DirValid"], tag="c06p")
     st = merge_stats([st, st2])
     jobs += pjobs
